@@ -42,7 +42,7 @@ MANIFEST = {
                  'fingerprint; every render transition compared with a '
                  'freshly built template',
     'text': 'Starting from each of 4 sources x 2 default sets, all histories '
-            'over 12 operations are executed on the real code literally up '
+            'over 14 operations (munge also to the empty source and to empty defaults) are executed on the real code literally up '
             'to depth 3 (quick) / 4 (thorough) and then breadth-first with '
             'deduplication on the template fingerprint to depth 8 / until '
             'no new state appears.  After every render the result must '
@@ -72,7 +72,7 @@ MANIFEST = {
             'template in the same process would share.',
 }
 DYNAMIC = True        # few heavy cases: dynamic load balancing
-RULE = ('operation histories over {R0,R1,R2,P,D,C,M0..M3,G0,G1} from 8 '
+RULE = ('operation histories over {R0,R1,R2,P,D,C,M0..M4,G0..G2} from 8 '
         'initial templates; literal depth 3/4, deduplicated depth 8/12; '
         'feature table: histories over {R0,R1,R2,P,D} to depth 3/4 per '
         'feature and all ordered (feature, namespace) pairs.  A '
@@ -92,9 +92,11 @@ SOURCES = [
     '<dtml-try><dtml-var sub><dtml-var boom><dtml-except HA>E<dtml-var d>'
     '</dtml-try><dtml-in seq reverse_expr="a" prefix=p>'
     '<dtml-var p_index></dtml-in>',
+    '',                       # re-edited to the empty text
 ]
-DEFAULTS = [{'d': 'd0'}, {'d': 'd1', 'a': 0, 'sk': 'j'}]
-OPS = ['R0', 'R1', 'R2', 'P', 'D', 'C', 'M0', 'M1', 'M2', 'M3', 'G0', 'G1']
+DEFAULTS = [{'d': 'd0'}, {'d': 'd1', 'a': 0, 'sk': 'j'}, {}]
+OPS = ['R0', 'R1', 'R2', 'P', 'D', 'C', 'M0', 'M1', 'M2', 'M3', 'M4', 'G0',
+       'G1', 'G2']
 
 
 class HA(Exception):
@@ -449,8 +451,8 @@ def cases(tier):
         for i in range(3):
             yield {'fam': 'cross', 'f': f, 'i': i}
     lit, maxd = (3, 8) if tier == 'quick' else (4, 12)
-    for s in range(len(SOURCES)):
-        for d in range(len(DEFAULTS)):
+    for s in range(len(SOURCES) - 1):
+        for d in range(len(DEFAULTS) - 1):
             yield {'fam': 'hist', 'start': [s, d], 'literal': lit,
                    'maxdepth': maxd}
 
